@@ -11,9 +11,22 @@ def build(tier, known):
                          functions=['chardata::CharacterData::check_version_compatibility', 'chardata::CharacterData::check_value', 'chardata::CharacterData::parse', 'chardata::CharacterData::serialize_internal'],
                          bound=dom, claim='check_version_compatibility(v, spec, target).0 == check_value(v, spec, target) == parse(text(v), spec, target).is_some() == (item listed with a mask containing target); mask contains target <=> compatible',
                          native=('data', 'n_c17_value'), timeout=600))
+    q = tier == 'quick'
+    hs.append(Harness('n_c17_doc', 'data', 'element.rs', '', functions=[], bound='', claim='', role='native'))
+    DFUNCS = ['arxmlfile::ArxmlFile::set_version', 'arxmlfile::ArxmlFile::check_version_compatibility', 'arxmlfile::ArxmlFile::model', 'arxmlfile::ArxmlFile::downgrade',
+              'autosarmodel::AutosarModel::root_element', 'element::Element::check_version_compatibility', 'element::Element::recalc_element_type', 'element::Element::parent',
+              'elementraw::ElementRaw::parent', 'element::Element::sub_elements', 'ElementsIterator::next', 'lexer::ArxmlLexer::next', 'parser::ArxmlParser::parse_element', 'parser::ArxmlParser::parse_character_data']
+    DOCS = {0: 'one AR-PACKAGE with a SHORT-NAME', 1: 'one AR-PACKAGE with SHORT-NAME and CATEGORY', 2: 'an AR-PACKAGE nested in an AR-PACKAGE, the inner one with a CATEGORY', 3: 'two AR-PACKAGEs, each with a CATEGORY'}
+    for d in ((0, 1, 2) if q else (0, 1, 2, 3)):
+        hs.append(E2Spec(f'e2_c17_doc{d}', 'C17Doc', dict(doc=d), functions=DFUNCS,
+                         bound=f'mini document: {DOCS[d]}; schema AUTOSAR > AR-PACKAGES > AR-PACKAGE* > SHORT-NAME, CATEGORY (enum-typed here; symbolic version mask), AR-PACKAGES; CATEGORY values ANY of the first three enumeration items; '
+                               'symbolic 2-row item table (items among the first three, ANY version masks); ANY single-bit source version, ANY single-bit target version; SHORT-NAME text one symbolic byte',
+                         claim='for every document that loads strictly in the source version: ArxmlFile::check_version_compatibility(target) lists no incompatibility <=> the same document loads strictly with the target version '
+                               '<=> the returned mask contains the target version <=> ArxmlFile::set_version(target) succeeds; a successful set_version stores the target version, a failed one changes nothing',
+                         native=('data', 'n_c17_doc'), parts=(1 if d == 0 else (9 if d < 3 else 27)), timeout=1500 if q else 7200, known_keys=['C17-element-value-not-checked']))
     info = dict(
         assumptions=['AutosarVersion::compatible(mask) <=> mask has the bit (decided on the compiled function under C18)', 'E2 library models trusted, validated against the native build',
                      'values conform to the kind of their specification (an enum-typed position holds an enum item): what the loader and the editing API establish'],
-        outside_claim=['the recursive compatibility walk over elements (Element::check_version_compatibility, recalc_element_type), ArxmlFile::set_version, multi-file minimum: element tree behind Arc<RwLock> (DESIGN.md section 6) - a change there is NOT detected'],
+        outside_claim=['attributes in the document-level harness (the attribute branch of the walk), reference DEST values, multi-file models (file_membership sets are empty here), element kinds beyond the mini schema; Arc / RwLock / Weak are single-threaded stand-ins'],
     )
     return hs, {}, info
